@@ -97,10 +97,7 @@ def genRun (Y : YieldFn) (tk : PTask) : List GStep → Sess → List PTask → S
   | .parseDefined raises :: r, s, k => if k.isEmpty && raises then (s, true, false) else genRun Y tk r s k
   | .collectEach :: r, s, k => genRun Y tk r s k
   | .raiseOnCollectFail :: r, s, k => if k.any (·.uncollectable) then (s, true, false) else genRun Y tk r s k
-  -- F39: a defined task whose signature is already used fails the generator. M7 does not model such clashes (its
-  -- hand-written `genExecute` appends whatever `YieldFn` yields, ids are not compared), so the step is interpreted as
-  -- never firing; names / signatures of generated tasks and their clashes are C13's model (`Collect.generatorCollect`).
-  | .raiseOnDuplicate :: r, s, k => genRun Y tk r s k
+  | .raiseOnDuplicate :: r, s, k => if nameClash s.tasks k then (s, true, false) else genRun Y tk r s k
   | .extendTasks :: r, s, k => genRun Y tk r { s with tasks := s.tasks ++ k } k
   | .modifyTasks :: r, s, k => genRun Y tk r s k
   | .recreate c :: r, s, k => genRun Y tk r (if condGen s tk.id c then recreateGen s tk.id else s) k
